@@ -41,12 +41,19 @@ const (
 var VerdictNames = []string{"ok", "deadlock", "horizon", "panic"}
 
 type Point struct {
-	N          int  // number of alternatives (>= 2)
-	Chosen     int  // index taken
-	Data       bool // data choice (which waiter a Signal wakes) rather than a thread choice
-	CurEnabled bool // the running thread was still enabled: alternatives cost one preemption
-	Step       int
+	N      int     // number of alternatives (>= 2)
+	Chosen int     // index taken
+	Data   bool    // data choice (which waiter a Signal wakes) rather than a thread choice
+	Costs  []uint8 // deviation cost of each alternative (0 = free)
+	Step   int
 }
+
+// Thread classes
+const (
+	ClClient = 0 // harness clients (and thread 0)
+	ClWorker = 1 // background threads of go-nfsd (shrinker): scheduled like clients
+	ClDaemon = 2 // journal logger / installer
+)
 
 const (
 	pendNone = iota
@@ -58,7 +65,7 @@ const (
 type Thread struct {
 	ID     int
 	Name   string
-	Daemon bool
+	Class  int
 	s      *Sched
 	pend   int
 	mu     *Mu   // mutex needed to proceed
@@ -68,20 +75,34 @@ type Thread struct {
 	hand   handoff
 	DoneFlag uint32 // real atomic, gives Join a program-level happens-before edge
 	WaitSite string
+	vc       []uint32 // vector clock (happens-before fingerprinting)
+	clock    int64    // per-thread logical clock
 }
 
 // Mu is the model-level state of one vsync.Mutex.
 type Mu struct {
 	Holder *Thread
 	ID     int
+	vc     []uint32 // clock of the last release
 }
+
+// Visited is the set of states already expanded by the explorer, shared by
+// the executions of one search: key = (happens-before fingerprint, running
+// thread), value = fewest preemptions used when reaching it.
+type Visited struct {
+	M      map[[3]uint64]int
+	Pruned int64
+}
+
+func NewVisited() *Visited { return &Visited{M: map[[3]uint64]int{}} }
 
 type Config struct {
 	Prefix     []int
 	Points     int // mask of optional point classes
 	Horizon    int
-	DaemonLast bool // canonical order: clients before daemons
+	DaemonEager bool // default policy: run an enabled journal daemon before clients (instead of only when every client is blocked)
 	KeepClock  bool // do not reset the logical clock at the start
+	Visited    *Visited // nil: no state caching
 }
 
 type Result struct {
@@ -92,6 +113,7 @@ type Result struct {
 	Steps   int
 	Threads []string // state of every thread at the end (for deadlock reports)
 	Diverged bool
+	Pruned   bool // cut short: reached a state the search has already expanded
 }
 
 type Sched struct {
@@ -109,6 +131,11 @@ type Sched struct {
 	LockObs   func(tid int, kind int, addr uint64)
 	live      int32
 	finished  handoff // signalled when the last goroutine is gone
+	fp        [2]uint64 // fingerprint of the happens-before trace so far
+	used      int       // preemptions used so far
+	diskW     []uint32  // clock of the last disk write/barrier
+	addrW     map[uint64][]uint32
+	addrR     map[uint64][]uint32
 }
 
 // S is the scheduler of the execution in progress (nil: free-running mode,
@@ -122,6 +149,14 @@ var clockBase int64 = 1_000_000_000
 //
 //go:norace
 func TimeNow() time.Time {
+	if s := S; s != nil && !s.dead {
+		// per-thread logical time: no shared state, so two interleavings with the same
+		// synchronisation order produce the same values
+		t := s.cur
+		t.clock++
+		v := clockBase + t.clock*64 + int64(t.ID)
+		return time.Unix(v/1000, (v%1000)*1000)
+	}
 	clockBase++
 	return time.Unix(clockBase/1000, (clockBase%1000)*1000)
 }
@@ -173,21 +208,28 @@ func Run(cfg Config, body func()) Result {
 		ResetClock()
 	}
 	S = s
-	t := s.newThread("main", false)
+	t := s.newThread("main", ClClient)
 	s.cur = t
 	s.finished.init()
 	s.spawn(t, body)
 	t.hand.wake(1)
 	s.finished.park()
 	S = nil
+	var mc int64
+	for _, u := range s.threads {
+		if u.clock > mc {
+			mc = u.clock
+		}
+	}
+	clockBase += mc*64 + 64
 	s.res.Points = s.points
 	s.res.Steps = s.steps
 	return s.res
 }
 
 //go:norace
-func (s *Sched) newThread(name string, daemon bool) *Thread {
-	t := &Thread{ID: len(s.threads), Name: name, Daemon: daemon, s: s}
+func (s *Sched) newThread(name string, class int) *Thread {
+	t := &Thread{ID: len(s.threads), Name: name, Class: class, s: s}
 	t.hand.init()
 	s.threads = append(s.threads, t)
 	return t
@@ -319,33 +361,50 @@ func (s *Sched) schedule(t *Thread) {
 		}
 		return
 	}
-	// enabled set in canonical order
+	// enabled set in canonical order with the deviation cost of each alternative:
+	// the running thread (free); then clients and workers by id (a preemption if the
+	// running thread is still enabled, else free); then journal daemons (free only if
+	// nothing else can run, and then only the first of them).  With DaemonEager the
+	// daemons come first and are free.
 	var en [16]*Thread
+	var cs [16]uint8
 	list := en[:0]
+	costs := cs[:0]
 	curEn := s.enabled(t)
 	if curEn {
 		list = append(list, t)
+		costs = append(costs, 0)
 	}
 	var joiner *Thread
-	for pass := 0; pass < 2; pass++ {
+	if t.ID == 0 && t.pend == pendJoin && curEn {
+		joiner = t
+	}
+	pre := uint8(0)
+	if curEn {
+		pre = 1
+	}
+	addClass := func(daemons bool) {
 		for _, u := range s.threads {
-			if u == t || !s.enabled(u) {
-				continue
-			}
-			if s.cfg.DaemonLast && (u.Daemon != (pass == 1)) {
-				continue
-			}
-			if !s.cfg.DaemonLast && pass == 1 {
+			if u == t || (u.Class == ClDaemon) != daemons || !s.enabled(u) {
 				continue
 			}
 			if u.ID == 0 && u.pend == pendJoin {
 				joiner = u
 			}
+			c := pre
+			if daemons && !s.cfg.DaemonEager && len(list) > 0 {
+				c = 1
+			}
 			list = append(list, u)
+			costs = append(costs, c)
 		}
 	}
-	if t.ID == 0 && t.pend == pendJoin && curEn {
-		joiner = t
+	if s.cfg.DaemonEager {
+		addClass(true)
+		addClass(false)
+	} else {
+		addClass(false)
+		addClass(true)
 	}
 	var next *Thread
 	switch {
@@ -372,7 +431,13 @@ func (s *Sched) schedule(t *Thread) {
 	case len(list) == 1 || !s.branching:
 		next = list[0]
 	default:
-		c := s.choice(len(list), false, curEn)
+		c := s.choice(len(list), false, costs)
+		if c < 0 {
+			if !t.done {
+				runtime.Goexit()
+			}
+			return
+		}
 		next = list[c]
 	}
 	if next == t {
@@ -389,9 +454,19 @@ func (s *Sched) schedule(t *Thread) {
 }
 
 //go:norace
-func (s *Sched) choice(n int, data bool, curEn bool) int {
+func (s *Sched) choice(n int, data bool, costs []uint8) int {
 	c := 0
 	i := len(s.points)
+	if v := s.cfg.Visited; v != nil && i >= len(s.cfg.Prefix) && !data {
+		key := [3]uint64{s.fp[0], s.fp[1], uint64(s.cur.ID)}
+		if u, ok := v.M[key]; ok && u <= s.used {
+			v.Pruned++
+			s.res.Pruned = true
+			s.kill()
+			return -1
+		}
+		v.M[key] = s.used
+	}
 	if i < len(s.cfg.Prefix) {
 		c = s.cfg.Prefix[i]
 		if c >= n {
@@ -400,7 +475,10 @@ func (s *Sched) choice(n int, data bool, curEn bool) int {
 			c = 0
 		}
 	}
-	s.points = append(s.points, Point{N: n, Chosen: c, Data: data, CurEnabled: curEn, Step: s.steps})
+	cc := make([]uint8, n)
+	copy(cc, costs)
+	s.points = append(s.points, Point{N: n, Chosen: c, Data: data, Costs: cc, Step: s.steps})
+	s.used += int(cc[c])
 	return c
 }
 
@@ -430,7 +508,7 @@ func Dead() bool { return S != nil && S.dead }
 // Go starts a new thread of the execution.
 //
 //go:norace
-func Go(name string, daemon bool, f func()) int {
+func Go(name string, class int, f func()) int {
 	s := S
 	if s == nil {
 		go f()
@@ -439,7 +517,9 @@ func Go(name string, daemon bool, f func()) int {
 	if s.dead {
 		return -1
 	}
-	t := s.newThread(name, daemon)
+	t := s.newThread(name, class)
+	s.event(s.cur, 7, uint64(t.ID))
+	t.vc = cloneVC(s.cur.vc)
 	s.spawn(t, f)
 	return t.ID
 }
@@ -473,6 +553,7 @@ func Join(ids ...int) {
 	t.pend = pendNone
 	for _, id := range ids {
 		loadDone(s.threads[id])
+		join(&t.vc, s.threads[id].vc)
 	}
 }
 
@@ -508,7 +589,102 @@ func Choose(n int) int {
 	if s == nil || s.dead || n <= 1 || !s.branching {
 		return 0
 	}
-	return s.choice(n, true, false)
+	c := s.choice(n, true, nil)
+	s.event(s.cur, 6, uint64(c))
+	return c
+}
+
+// ---- happens-before fingerprint ----
+
+//go:norace
+func join(a *[]uint32, b []uint32) {
+	for len(*a) < len(b) {
+		*a = append(*a, 0)
+	}
+	for i, x := range b {
+		if x > (*a)[i] {
+			(*a)[i] = x
+		}
+	}
+}
+
+func mix(x uint64) uint64 {
+	x ^= x >> 30
+	x *= 0xbf58476d1ce4e5b9
+	x ^= x >> 27
+	x *= 0x94d049bb133111eb
+	x ^= x >> 31
+	return x
+}
+
+// event advances t's clock and adds the event (thread, index, kind, extra,
+// causal past) to the fingerprint.  The fingerprint is a commutative sum, so
+// two prefixes that are linearisations of the same partial order agree.
+//
+//go:norace
+func (s *Sched) event(t *Thread, kind uint64, extra uint64) {
+	for len(t.vc) <= t.ID {
+		t.vc = append(t.vc, 0)
+	}
+	t.vc[t.ID]++
+	h1 := mix(uint64(t.ID)<<40 ^ uint64(t.vc[t.ID])<<8 ^ kind)
+	h2 := mix(h1 ^ 0x9e3779b97f4a7c15 ^ extra)
+	h1 = mix(h1 + extra*0x2545f4914f6cdd1d)
+	for i, x := range t.vc {
+		if i == t.ID {
+			continue
+		}
+		h1 = mix(h1 ^ (uint64(i)<<32 | uint64(x)))
+		h2 = mix(h2 + (uint64(x)<<20 | uint64(i)))
+	}
+	s.fp[0] += h1
+	s.fp[1] += h2
+}
+
+//go:norace
+func cloneVC(v []uint32) []uint32 {
+	c := make([]uint32, len(v))
+	copy(c, v)
+	return c
+}
+
+// DiskEvent records a disk operation for the happens-before relation: writes
+// and barriers are totally ordered, a read depends on the writes to its address.
+//
+//go:norace
+func DiskEvent(write bool, barrier bool, addr uint64) {
+	s := S
+	if s == nil || s.dead {
+		return
+	}
+	t := s.cur
+	if s.addrW == nil {
+		s.addrW = map[uint64][]uint32{}
+		s.addrR = map[uint64][]uint32{}
+	}
+	if write || barrier {
+		join(&t.vc, s.diskW)
+		if write {
+			join(&t.vc, s.addrR[addr])
+			join(&t.vc, s.addrW[addr])
+		}
+		k := uint64(3)
+		if barrier {
+			k = 4
+		}
+		s.event(t, k, addr)
+		s.diskW = cloneVC(t.vc)
+		if write {
+			s.addrW[addr] = s.diskW
+			delete(s.addrR, addr)
+		}
+		return
+	}
+	join(&t.vc, s.addrW[addr])
+	s.event(t, 5, addr)
+	r := s.addrR[addr]
+	join(&r, t.vc)
+	s.addrR[addr] = r
 }
 
 // ---- primitives used by vsync ----
@@ -575,6 +751,8 @@ func Lock(m *Mu) {
 		panic("vrt: scheduled a thread whose mutex is held")
 	}
 	m.Holder = t
+	join(&t.vc, m.vc)
+	s.event(t, 1, 0)
 }
 
 //go:norace
@@ -589,6 +767,8 @@ func Unlock(m *Mu) {
 		panic(fmt.Sprintf("vrt: unlock of mutex#%d not held by the running thread", m.ID))
 	}
 	m.Holder = nil
+	s.event(t, 2, 0)
+	m.vc = cloneVC(t.vc)
 	if s.cfg.Points&PUnlock != 0 {
 		s.schedule(t)
 	}
@@ -607,6 +787,8 @@ func CondWait(m *Mu) {
 		panic("vrt: Cond.Wait without holding the mutex")
 	}
 	m.Holder = nil
+	s.event(t, 8, 0)
+	m.vc = cloneVC(t.vc)
 	t.inCond = true
 	t.pend = pendLock
 	t.mu = m
@@ -620,7 +802,15 @@ func CondWait(m *Mu) {
 		panic("vrt: woke a waiter whose mutex is held")
 	}
 	m.Holder = t
+	join(&t.vc, m.vc)
+	s.event(t, 9, 0)
 }
 
 //go:norace
-func Wake(t *Thread) { t.inCond = false }
+func Wake(t *Thread) {
+	t.inCond = false
+	if s := S; s != nil && !s.dead {
+		s.event(s.cur, 10, uint64(t.ID))
+		join(&t.vc, s.cur.vc)
+	}
+}
